@@ -1281,7 +1281,23 @@ persistent: false,
         }
         // a second name (hard link) for one of the files: the property speaks of files, not names
         if rng.chance(1, 8) {
-            if let Some(t) = case.files.iter().find(|f| f.exists && f.readable && f.writable && !case.symlinks.contains(&f.path)).cloned() {
+            // (the first name may itself be a symbolic link: then the second one is a hard link of
+            // the link's target, and the two do not resolve to the same path)
+            let prefer_symlinked = rng.chance(1, 3);
+            let pick = case
+                .files
+                .iter()
+                .find(|f| f.exists && f.readable && f.writable && prefer_symlinked && case.symlinks.contains(&f.path))
+                .or_else(|| case.files.iter().find(|f| f.exists && f.readable && f.writable))
+                .cloned();
+            if let Some(t) = pick {
+                // now and then make the first name a symbolic link on purpose
+                if !case.symlinks.contains(&t.path) && rng.chance(1, 4) {
+                    case.symlinks.push(t.path.clone());
+                }
+                if case.symlinks.contains(&t.path) {
+                    stats.probe("c18_hard_link_of_a_symlinked_files_target");
+                }
                 let dir = t.path.rsplit_once('/').map(|x| x.0.to_string()).unwrap_or_default();
                 let alias = format!("{dir}/hardlink_of_{}.pas", case.files.len());
                 let mut a = t.clone();
